@@ -89,6 +89,30 @@ def e_Set(self, n, st):
     return Tup([self.eval(e, st) for e in n.elts])
 
 
+def e_DictComp(self, n, st):
+    """{k: v for x in <short literal sequence>}: one entry per item; anything else is an opaque dict"""
+    if len(n.generators) == 1 and not n.generators[0].ifs:
+        itv = self.eval(n.generators[0].iter, st)
+        items = None
+        if isinstance(itv, Tup) and len(itv.items) <= 24:
+            items = list(itv.items)
+        elif isinstance(itv, Const) and isinstance(itv.v, (list, tuple)) and len(itv.v) <= 24:
+            items = [x if isinstance(x, Val) else Const(x) for x in itv.v]
+        if items is not None:
+            out = {}
+            for item in items:
+                inner = St(dict(st.env), st.heap)
+                self.bind(n.generators[0].target, item, inner, n)
+                k = self.eval(n.key, inner)
+                v = self.eval(n.value, inner)
+                st.heap = inner.heap
+                if not isinstance(k, Const):
+                    return Opaque('dict')
+                out[k.v] = v.v if (isinstance(v, Const) and not isinstance(v.v, (dict, list))) else v
+            return Const(out)
+    return Opaque('dict')
+
+
 def e_Dict(self, n, st):
     keys = [self.eval(k, st) if k is not None else None for k in n.keys]
     vals = [self.eval(v, st) for v in n.values]
@@ -534,6 +558,9 @@ def binop(self, op, va, vb, node):
     _fs_fraction(op, va, vb, r_)
     _centred(op, va, vb, r_)
     _pow2_bound(op, va, vb, r_)
+    if isinstance(op, ast.Pow) and isinstance(r_, Num) and getattr(va, 'abs_label', None) and isinstance(vb, Const) \
+            and isinstance(vb.v, (int, float)) and vb.v == int(vb.v) and int(vb.v) % 2 == 0 and isinstance(va, Num) and va.cplx is False:
+        r_.taint = r_.taint - frozenset([va.abs_label])          # |x|**2 == x**2 for real x: the modulus leaves no trace
     return r_
 
 
@@ -638,7 +665,10 @@ def _binop(self, op, va, vb, node):
                 for i in items:
                     e = join(e, i)
                 n = _asint(y).a
-                return SeqV(e, n.scale(len(items)) if n is not None else None, taint_of(x) | taint_of(y))
+                rs = SeqV(e, n.scale(len(items)) if n is not None else None, taint_of(x) | taint_of(y))
+                if all(isinstance(i, Const) and isinstance(i.v, (int, float, complex)) and i.v == 0 for i in items):
+                    rs.qarr = 'any'          # a list of zeros: the polymorphic start value of accumulators kept by position
+                return rs
     if isinstance(op, ast.Add) and isinstance(va, (Tup, SeqV)) and isinstance(vb, (Tup, SeqV)):
         if isinstance(va, Tup) and isinstance(vb, Tup):
             return Tup(va.items + vb.items, va.taint | vb.taint, va.mutable)
@@ -1666,6 +1696,10 @@ def index_value(self, v, idx, node):
         if fancy is None and r.is_array:
             r.view_of = nv.view_of          # basic slicing returns a view
             self.share(r, v, whole=False)
+            if len(idxs) == 1 and isinstance(idxs[0], SliceV) and idxs[0].step is not None and _asint(idxs[0].step) is not None \
+                    and _asint(idxs[0].step).a is not None and _asint(idxs[0].step).a == Aff(-1):
+                r.rev_of = nv.mid if isinstance(v, Num) and v.mid is not None else getattr(v, 'uid', None)      # a reversed view of that array
+                r.rev_org = nv.org
         if fancy is not None:
             r.org = None if fancy == 'none' else fancy
         elif any(isinstance(ix, SliceV) for ix in idxs):
@@ -1787,10 +1821,56 @@ def value_key(v):
     return ('obj', id(v))
 
 
+def view_target(self, n, st):
+    """`V[e]` where V was bound by `V = A[lo::-1]` / `A[lo:hi]` / `A[::-1]` (a view of the 1-D local array A whose bounds have not
+    changed since): the equivalent subscript `A[lo -+ e]`, so that loads and element stores through the view act on A itself"""
+    if not (isinstance(n.value, ast.Name) and not isinstance(n.slice, (ast.Slice, ast.Tuple))):
+        return None
+    views = self.frames[-1].__dict__.get('slice_views') if self.frames else None
+    info = views.get(n.value.id) if views else None
+    if info is None:
+        return None
+    aname, lower, step, deps, vid = info
+    cur = st.env.get(n.value.id)
+    arr = st.env.get(aname)
+    if not isinstance(arr, Num) or not isinstance(cur, Num) or arr.mid is None or cur.mid != arr.mid:
+        return None          # the view or the array was re-bound since: no longer the same storage
+    if any(value_key(st.env.get(k_)) != i_ for k_, i_ in deps.items()):
+        return None
+    cache = self.__dict__.setdefault('_view_nodes', {})
+    key = (id(n), aname)
+    if key not in cache:
+        e = n.slice
+        if step == 1:
+            ix = e if lower is None else ast.BinOp(left=lower, op=ast.Add(), right=e)
+        else:
+            first = lower if lower is not None else ast.BinOp(
+                left=ast.Call(func=ast.Name(id='len', ctx=ast.Load()), args=[ast.Name(id=aname, ctx=ast.Load())], keywords=[]),
+                op=ast.Sub(), right=ast.Constant(1))
+            ix = ast.BinOp(left=first, op=ast.Sub(), right=e)
+        t2 = ast.Subscript(value=ast.Name(id=aname, ctx=ast.Load()), slice=ix, ctx=n.ctx)
+        ast.copy_location(t2, n)
+        ast.fix_missing_locations(t2)
+        cache[key] = t2
+    return cache[key]
+
+
 def e_Subscript(self, n, st):
+    t2 = view_target(self, n, st)
+    if t2 is not None:
+        return self.e_Subscript(t2, st)
     v = self.eval(n.value, st)
     idx = self.eval(n.slice, st)
     r = self.index_value(v, idx, n)
+    if isinstance(r, Num) and r.is_array and isinstance(v, Num) and v.shape is not None and len(v.shape) == 1 and isinstance(n.value, ast.Name) \
+            and isinstance(n.slice, ast.Slice) and self.frames:
+        sl = n.slice
+        stp = 1 if sl.step is None else (-1 if (isinstance(sl.step, ast.UnaryOp) and isinstance(sl.step.op, ast.USub)
+                                                and isinstance(sl.step.operand, ast.Constant) and sl.step.operand.value == 1) else
+                                         (1 if isinstance(sl.step, ast.Constant) and sl.step.value == 1 else None))
+        if stp is not None and not any(isinstance(x, ast.Call) for x in ast.walk(sl)):
+            deps = {x.id: value_key(st.env.get(x.id)) for x in ast.walk(sl) if isinstance(x, ast.Name)}
+            r.slice_view = (n.value.id, sl.lower, stp, deps)
     if isinstance(r, Num) and isinstance(v, Num) and v.shape is not None and len(v.shape) == 2 and isinstance(n.value, ast.Name) \
             and not isinstance(idx, (Tup, SliceV)) and _asint(idx) is not None and r.shape is not None and len(r.shape) == 1:
         # row = M[e]: a view of one row of the local matrix M (stores through it land in M)
